@@ -24,13 +24,13 @@ func runC01(c *core.Check) {
 		consts = map[string]string{"MaxD": "2", "Level2": "\"all\""}
 	}
 	c.Extra["constants"] = consts
-	streamTLC(c, core.TLCRun{Module: "MC_E1", Consts: consts, Timeout: minutes(25)},
+	streamTLC(c, core.TLCRun{Module: "MC_E1", Parts: 4, Consts: consts, Timeout: minutes(25)},
 		func(st core.State) { c01.Handle(c, st, []int{0, 1, 2, 3, 4, 5, 6, 7}) })
 	// heredoc and flush-heredoc templates (canonical layout only: their line structure is the layout)
 	hd := "1"
 	if c.Tier == "thorough" {
 		hd = "2"
 	}
-	streamTLC(c, core.TLCRun{Module: "MC_E1", Consts: map[string]string{"MaxD": hd, "Level2": "\"heredoc\""}, Timeout: minutes(25)},
+	streamTLC(c, core.TLCRun{Module: "MC_E1", Parts: 4, Consts: map[string]string{"MaxD": hd, "Level2": "\"heredoc\""}, Timeout: minutes(25)},
 		func(st core.State) { c01.Handle(c, st, []int{0}) })
 }
